@@ -29,13 +29,15 @@ Qed.
 Theorem step_exact e s o :
   uniq_keys (links s) -> classify e s o = None -> step e s o = spec_step e s o.
 Proof.
-  intros Hu Hc. destruct o as [ro si mb q item new|ro si mb q item new|mb q dest|mb q dest|mb fl|ro mb]; simpl in *.
+  intros Hu Hc. destruct o as [ro si mb q item new|ro si mb q item new|mb q dest|mb q dest|mb fl|ro mb|del|id]; simpl in *.
   - destruct (ro || negb (flags_valid new)); [reflexivity|]. now rewrite store_seq_exact.
   - destruct (ro || negb (flags_valid new)); [reflexivity|]. now rewrite store_uid_exact.
   - reflexivity.
   - reflexivity.
   - reflexivity.
   - destruct ro; reflexivity.
+  - reflexivity.
+  - reflexivity.
 Qed.
 
 (** ---------- UNIQUE(mailbox_id, uid) is an invariant of every operation ---------- *)
@@ -62,7 +64,7 @@ Proof. intros H Hu. unfold uniq_keys. rewrite map_map. erewrite map_ext; [exact 
 
 Lemma uniq_move s msg src u dest fl s' : uniq_keys (links s) -> move s msg src u dest fl = Some s' -> uniq_keys (links s').
 Proof.
-  unfold move. destruct (src =? dest); [discriminate|].
+  unfold move. destruct dest as [dest|]; [|discriminate]. destruct (src =? dest); [discriminate|].
   destruct (insert (links s) _) as [l1|] eqn:E; [|discriminate]. intros Hu [= <-]. simpl.
   apply uniq_filter. eapply uniq_insert; eauto.
 Qed.
@@ -115,7 +117,7 @@ Qed.
 
 Theorem uniq_step e s o : uniq_keys (links s) -> uniq_keys (links (step e s o)).
 Proof.
-  intros Hu. destruct o as [ro si mb q item new|ro si mb q item new|mb q dest|mb q dest|mb fl|ro mb]; simpl.
+  intros Hu. destruct o as [ro si mb q item new|ro si mb q item new|mb q dest|mb q dest|mb fl|ro mb|del|id]; simpl.
   - destruct (ro || negb (flags_valid new)); [assumption|]. unfold store_seq. apply uniq_fold; [|assumption]. intros; now apply uniq_store_uid_one.
   - destruct (ro || negb (flags_valid new)); [assumption|]. unfold store_uid. apply uniq_fold; [|assumption]. intros; now apply uniq_store_uid_one.
   - unfold copy_uid. destruct (expand_uid (links s) mb q) as [|u0 us]; [assumption|].
@@ -125,6 +127,8 @@ Proof.
   - destruct (flags_valid fl); [|assumption].
     unfold append. destruct (insert _ _) eqn:E; simpl; [eapply uniq_insert; eauto | assumption].
   - destruct ro; [assumption|]. simpl. unfold expunge. now apply uniq_filter.
+  - unfold drop_spam. destruct (spam s); [|assumption]. destruct del; simpl; [now apply uniq_filter | assumption].
+  - unfold create_spam. destruct (spam s); assumption.
 Qed.
 
 (** ---------- histories ---------- *)
